@@ -4,7 +4,8 @@
 
   C01 — what the property demands of one constructor call, stated declaratively:
   signature and annotations from the field list; TypeError exactly for malformed calls; otherwise every
-  participating field holds converter(argument | default | fresh factory value), the others are unset.
+  participating field holds converter(argument | default | fresh factory value), the others are unset; the
+  converter of a field runs exactly once per call, its factory exactly once iff no value was supplied.
 -/
 import AttrsModel.Model.Init
 
@@ -45,18 +46,66 @@ def wf (c : Case) : Bool :=
   -- a frozen class cannot have hooks (rejected at definition time, C15)
   (!r.cfg.frozen || r.attrs.all (·.onSet == .unset))
 
+/-! ### which callbacks run (once through the converter; a fresh factory result per call)
+
+  The statement says the stored value has passed ONCE through the field's converter and that a factory
+  default is a FRESH result of the factory: per constructor call the converter of every participating field
+  that has one is called exactly once, the factory exactly once when (and only when) no value was supplied —
+  never at class-definition time, never shared between instances.  The symbolic value alone cannot show this
+  (a value converted once and for all while the class is built prints the same), so C01 also observes the
+  *identities* of the converter / factory invocations of each call, in order; their arguments (and the
+  pre/validator/post callbacks) belong to C02 and are blanked / dropped. -/
+
+/-- converter and factory invocations (the callbacks the statement of C01 talks about) -/
+def isCall (e : Event) : Bool := e.id.kind == "conv" || e.id.kind == "factory"
+
+/-- the identity of an invocation only: which callback, of which field -/
+def blankArgs (e : Event) : Event := { e with args := [] }
+
+/-- the part of a callback trace C01 observes -/
+def callsOf (t : List Event) : List Event := (t.filter isCall).map blankArgs
+
+def callEv (kind field : String) : Event := { id := { kind := kind, field := field, idx := 0 }, args := [] }
+
+/-- a value was supplied for the field by the caller (never for `init=False` fields) -/
+def valueSupplied (attrs : List Attr) (c : Call) (a : Attr) : Bool :=
+  a.init && (passed (params attrs) c a.alias).isSome
+
+def hasFactory (a : Attr) : Bool :=
+  match a.dflt with
+  | .factory _ => true
+  | _ => false
+
+/-- the field's value is a fresh result of its factory: nothing was supplied and the default is a factory -/
+def fromFactory (attrs : List Attr) (c : Call) (a : Attr) : Bool :=
+  hasFactory a && !valueSupplied attrs c a
+
+/-- the converter / factory invocations of one well-formed call, from the statement: for every participating
+    field in field order, its factory iff the value comes from the factory, then its converter iff it has
+    one — each exactly once. -/
+def expectedCalls (attrs : List Attr) (c : Call) : List Event :=
+  (attrs.filter participates).flatMap (fun a =>
+    (if fromFactory attrs c a then [callEv "factory" a.name] else []) ++
+    (if a.conv.isSome then [callEv "conv" a.name] else []))
+
 def spec (c : Case) (o : Obs) : Bool :=
   let r := c.eff
   o.sig == sigOf r.attrs &&
   o.annotations == annotationsOf r.attrs &&
   (if callOk (params r.attrs) c.call then
      o.exc == none &&
-     o.values == r.attrs.map (fun a => (a.name, expectedValue r.attrs c.call a))
-   else o.exc == some .typeError)
+     o.values == r.attrs.map (fun a => (a.name, expectedValue r.attrs c.call a)) &&
+     -- once through the converter, a fresh factory result: exactly these invocations, in this order
+     o.trace == expectedCalls r.attrs c.call
+   else o.exc == some .typeError && o.trace == [])
 
-/-- C01 observes signature, annotations, exception kind and field values; the callback trace, `args` and
-    the hash cache belong to C02 / C04 and are blanked here. -/
-def model (c : Case) : Obs := { runInit c with trace := [], excArgs := none, cache := none }
+/-- what C01 keeps of a full observation of the initializer: signature, annotations, exception kind, field
+    values and the identities of the converter / factory invocations; the other callbacks, all callback
+    arguments, `args` and the hash cache belong to C02 / C04 and are blanked. -/
+def view (o : Obs) : Obs := { o with trace := callsOf o.trace, excArgs := none, cache := none }
+
+def model (c : Case) : Obs :=
+  { runInit c with trace := ((runInit c).trace.filter isCall).map blankArgs, excArgs := none, cache := none }
 
 def check : Check Case Obs := { model := model, spec := spec, wf := wf, known := known }
 
